@@ -245,10 +245,11 @@ def correspond(ctx):
         if plan["max_regs"] is None and cfg["bus"] == "axi":
             return 16
         return plan["max_regs"]
-    jobs = [(cfg, rng.getrandbits(32), cap(cfg)) for cfg in grid(rng)]
+    mw = 24 if quick else None
+    jobs = [(cfg, rng.getrandbits(32), cap(cfg), mw) for cfg in grid(rng)]
     for _ in range(plan["random_socs"]):
         cfg = L.gen_cfg(rng)
-        jobs.append((cfg, rng.getrandbits(32), cap(cfg)))
+        jobs.append((cfg, rng.getrandbits(32), cap(cfg), mw))
     # slow simulations first so the pool stays busy
     jobs.sort(key=lambda j: (j[0]["csr_dw"] != 8 or j[0]["bus"] == "wishbone", j[0]["bus"] != "axi", j[0]["bus"] != "axi-lite"))
     run_socs(ctx, jobs, dis, "end-to-end SoCs: every exported address accessed through the bus master")
